@@ -1570,7 +1570,7 @@ func main() {
 	// corpus first
 	for _, f := range corpusFiles() {
 		for _, l := range xvlib.ReadLines(f) {
-			if strings.HasPrefix(l, "xp ") || strings.HasPrefix(l, "td ") {
+			if strings.HasPrefix(l, "xp ") || strings.HasPrefix(l, "td ") || strings.HasPrefix(l, "xpf ") || strings.HasPrefix(l, "tdf ") || strings.HasPrefix(l, "tdt ") {
 				run("corpus", l)
 			}
 		}
